@@ -189,8 +189,16 @@ class Sched:
     def _handoff(self, me):
         """Give the baton to the next thread; returns when `me` is scheduled again."""
         self.nsteps += 1
+        if self.nsteps == self.step_cap // 2:
+            self.half_mark = (self.world.now, self.world.opcount)
         if self.nsteps > self.step_cap and not self.aborting:
             self.stepcap_hit = True
+            if getattr(self, "half_mark", None) == (self.world.now, self.world.opcount):
+                from .aloop import stack_site
+
+                self.spinning = [(t.name, t.blocked_on if t.state == "B" else "spin@%s" % (
+                    stack_site(sys._getframe(1)) if t is me else "runnable"))
+                    for t in self.threads if t.state != "D"]
             self._abort_from(me)
             return
         self._hook_change()
@@ -341,6 +349,7 @@ class Sched:
             err = Deadlock(self.deadlock)
         elif self.stepcap_hit:
             err = StepCap()
+            err.spinning = getattr(self, "spinning", None)
         # teardown
         self.world.log("TEARDOWN", len(getattr(self.world, "trace_events", ())))
         self.aborting = True
